@@ -105,7 +105,9 @@ def run(case, ctx):
 
     rng = rng_for(ctx["seed"], ID, case["i"])
     L = int(rng.integers(1, 41))
-    B = int(rng.integers(1, L + 1))
+    if case["i"] % 10 == 9:
+        L = int(rng.integers(300, 1200))  # realistic sizes (code paths gated on the size)
+    B = int(rng.integers(1, L + 1)) if L <= 40 else int(rng.choice([16, 32, 64, 100, 128]))
     ndev = 2 if (B % 2 == 0 and rng.integers(0, 2)) else 1
     devices = [jax.devices()[0]] * ndev
     use_default_devices = ndev == 1 and bool(rng.integers(0, 2))
@@ -124,7 +126,7 @@ def run(case, ctx):
             c = int(rng.integers(1, 3))
             inner = (c,) + sp + (D,) * k
             n_in = int(np.prod(inner))
-            vals = np.arange(L)[:, None] * 512 + (np.arange(n_in)[None, :] % 512)
+            vals = np.arange(L)[:, None] * 512 + (np.arange(n_in)[None, :] % 512)  # < 2^24 for L < 32768
             blocks[(k, p)] = jnp.asarray(vals.reshape((L,) + inner).astype(np.float32))
         mis.append(geom.MultiImage(blocks, D, True))
         layouts.append({str(t): list(v.shape) for t, v in blocks.items()})
